@@ -52,7 +52,7 @@ class LLEWorld:
 
     def lle(self, a, comp, T, top):
         """set the composition (all in 'l'), run lle on the three streams, return the observation"""
-        obs = dict(exc=NONE, msg='', two=False, act=0, same=0, scale=0, top_ok=True, neg=False, method=self.method.replace(' ', '_'), n=len(comp),
+        obs = dict(exc=NONE, msg='', two=False, act=0, same=0, fresh=0, scale=0, top_ok=True, neg=False, method=self.method.replace(' ', '_'), n=len(comp),
                    scale_tol=1000 if self.method == 'pseudo equilibrium' else 1000000)
         try:
             with warnings.catch_warnings():
@@ -74,6 +74,17 @@ class LLEWorld:
                     self.C.lle(use_cache=bool(a['uc']), **kw)
                     rA, rB, rC = _rows(self.A), _rows(self.B), _rows(self.C)
                     q = np.where(tot > 0, tot / QUANTA, 1e-8)
+                    # a new stream (no history at all) given the same material and temperature
+                    D = tmo.MultiStream(None, thermo=thermo(), phases='lL', T=300.)
+                    D.lle.method = self.method
+                    for ID, v in comp.items():
+                        D.imol['l', ID] = v
+                    D.lle(**kw)
+                    rD = _rows(D)
+                    dev = max(np.abs((rA[ph] - rD[ph]) / q).max() for ph in 'lL')
+                    if top == NONE:
+                        dev = min(dev, max(np.abs((rA['l'] - rD['L']) / q).max(), np.abs((rA['L'] - rD['l']) / q).max()))
+                    obs['fresh'] = int(min(dev, 2e9))
                     obs['neg'] = bool(any((r < 0).any() for r in rA.values()))
                     direct = max(np.abs((rA[ph] - rB[ph]) / q).max() for ph in 'lL')
                     if top == NONE:
@@ -123,6 +134,10 @@ class SLEWorld:
         self.s.imol['s', self.solute] = n * (1 - f)
         for sv in solvents:
             self.s.imol['l', sv] = 10 ** rng.uniform(-2, 2)
+        if rng.random() < 0.3:
+            # another chemical held as a solid at entry (it must stay where it is and is no solvent)
+            other = rng.choice([i for i in SOLUTES + ['Octane'] if i != self.solute])
+            self.s.imol['s', other] = 10 ** rng.uniform(-1, 1)
         self.tot = sum(_rows(self.s).values())
         self.q = np.where(self.tot > 0, self.tot / QUANTA, 1e-8)
 
